@@ -6,6 +6,8 @@ package main
 
 import (
 	"bytes"
+	"context"
+	"runtime/pprof"
 	"errors"
 	"fmt"
 	"runtime"
@@ -48,7 +50,20 @@ type itemT struct {
 	mode   int
 	spins  int
 	rank   int
+	honour bool // the Go function looks at the request context and returns its error once cancelled
 }
+
+// where the request context is cancelled (0 = never)
+const (
+	cNone      = 0
+	cBefore    = 1  // before the request starts
+	cIdleEntry = 2  // when the idle handler is entered for the n-th time (functions may be running)
+	cEarly     = 3  // after the early functions of the n-th round were released, before they are parked
+	cIdleExit  = 4  // when the idle handler returns for the n-th time (between waves / after the last delivery)
+	cMidLate   = 16 // while the handler is blocked in its receive, before the n-th late function is released
+)
+
+const ctxErrCode = -3
 
 type getterSpec struct {
 	item  int // inner promise item, or -1 when the getter answers synchronously
@@ -77,7 +92,7 @@ type label struct {
 
 func (l label) node() sexp.Node {
 	switch l.name {
-	case "idle-enter", "flush-done", "idle-exit", "end":
+	case "idle-enter", "flush-done", "idle-exit", "end", "cancel":
 		return sexp.T(l.name)
 	case "flush":
 		xs := make([]sexp.Node, len(l.its))
@@ -124,13 +139,33 @@ type run struct {
 	roundFlush bool
 	ended      bool
 	problems   []string
+
+	cancelKind int
+	cancelN    int
+	cancelFn   context.CancelFunc
+	cancelled  bool
+	idleCalls  int
+	ctxErr     map[int]bool // Go items whose function returned the context's error
+}
+
+// doCancel cancels the request context (once) and puts the event into the history.
+func (r *run) doCancel() {
+	r.mu.Lock()
+	if r.cancelled || r.cancelFn == nil {
+		r.mu.Unlock()
+		return
+	}
+	r.cancelled = true
+	r.logf("cancel", 0)
+	r.mu.Unlock()
+	r.cancelFn()
 }
 
 func newRun(items []*itemT, conns map[int]*connSpec) *run {
 	r := &run{items: items, conns: conns, connByObj: map[interface{}]*connSpec{},
 		prom: map[int]graphql.ResolvePromise{}, created: map[int]bool{}, finished: map[int]bool{}, arrived: map[int]bool{},
 		recvd: map[int]bool{}, flushed: map[int]bool{}, delivered: map[int]bool{}, consumed: map[int]bool{},
-		abandoned: map[int]bool{}, ctl: map[int]*goCtl{}}
+		abandoned: map[int]bool{}, ctl: map[int]*goCtl{}, ctxErr: map[int]bool{}}
 	for _, it := range items {
 		if it.kind == kGo {
 			r.ctl[it.id] = &goCtl{gate: make(chan struct{})}
@@ -204,7 +239,7 @@ func (r *run) logFlush(k int, ids []int) {
 	r.mu.Unlock()
 }
 
-func (r *run) goFunc(it *itemT) func() (interface{}, error) {
+func (r *run) goFunc(it *itemT, ctx context.Context) func() (interface{}, error) {
 	c := r.ctl[it.id]
 	return func() (interface{}, error) {
 		id := curGoid()
@@ -214,11 +249,20 @@ func (r *run) goFunc(it *itemT) func() (interface{}, error) {
 		r.mu.Unlock()
 		if it.mode == mFree {
 			spin(it.spins)
+		} else if it.honour {
+			select {
+			case <-c.gate:
+			case <-ctx.Done():
+			}
 		} else {
 			<-c.gate
 		}
 		v, err := r.valueOf(it)
 		r.mu.Lock()
+		if it.honour && ctx.Err() != nil {
+			v, err = nil, fmt.Errorf("e%d", ctxErrCode)
+			r.ctxErr[it.id] = true
+		}
 		r.finished[it.id] = true
 		r.logf("finish", it.id)
 		r.mu.Unlock()
@@ -367,6 +411,13 @@ func (r *run) inferTaken(atEnd bool) {
 
 func (r *run) idle(orig func()) {
 	r.mu.Lock()
+	call := r.idleCalls
+	r.idleCalls++
+	r.mu.Unlock()
+	if r.cancelKind == cIdleEntry && call == r.cancelN {
+		r.doCancel()
+	}
+	r.mu.Lock()
 	r.inferTaken(false)
 	var early, late []int
 	for _, it := range r.items {
@@ -382,6 +433,9 @@ func (r *run) idle(orig func()) {
 	r.mu.Unlock()
 	for _, id := range early {
 		r.release(id)
+	}
+	if r.cancelKind == cEarly && call == r.cancelN {
+		r.doCancel()
 	}
 	if len(early) > 0 {
 		r.waitParked(early)
@@ -405,6 +459,9 @@ func (r *run) idle(orig func()) {
 	close(stop)
 	<-done
 	r.afterIdle()
+	if r.cancelKind == cIdleExit && call == r.cancelN {
+		r.doCancel()
+	}
 }
 
 // lateHelper releases the held functions one at a time, each when the idle handler is seen blocked
@@ -419,7 +476,13 @@ func (r *run) lateHelper(late []int, stop, done chan struct{}) {
 			return false
 		}
 	}
-	for _, id := range late {
+	for j, id := range late {
+		if r.cancelKind == cMidLate && j == r.cancelN {
+			for looks := 0; looks < 200 && !stopped() && !r.executorBlockedInReceive(); looks++ {
+				runtime.Gosched()
+			}
+			r.doCancel()
+		}
 		for looks := 0; looks < 200; looks++ {
 			if stopped() {
 				return
@@ -454,7 +517,7 @@ func (r *run) declaredErr(id int) bool {
 			}
 		}
 	}
-	return !it.ok
+	return !it.ok || r.ctxErr[id]
 }
 
 // ensureDelivered emits the hidden steps that must have happened for inner promise q to hold its
@@ -520,9 +583,132 @@ func encodeResult(it *itemT, v graphql.ResolveResult) sexp.Node {
 	return sexp.T("ok", sexp.Int(it.id))
 }
 
+// chainGoroutines counts the goroutines started through apifu.Go for the connection with this label
+// (the library's chain / join goroutines and the getters' own) that still exist, from the labelled goroutine
+// profile (the only dump that shows pprof labels).
+func chainGoroutines(label string) int {
+	var buf bytes.Buffer
+	pprof.Lookup("goroutine").WriteTo(&buf, 1)
+	n := 0
+	for _, blk := range strings.Split(buf.String(), "\n\n") {
+		if !strings.Contains(blk, "\"c15conn\":\""+label+"\"") {
+			continue
+		}
+		if !strings.Contains(blk, apiPkg+"Go.func1") {
+			continue
+		}
+		k, _ := strconv.Atoi(strings.TrimSpace(blk[:strings.IndexByte(blk, '@')]))
+		n += k
+	}
+	return n
+}
+
+func (r *run) goroutineGone(goid int64) bool {
+	for _, g := range dump() {
+		if g.id == goid {
+			return false
+		}
+	}
+	return true
+}
+
+// observeInnerDelivery: the handler returned without a flush and without filling a promise the
+// executor holds, so (C15_idle_round_fulfils) it filled an inner promise and returned instead of
+// looping.  Which one is observed, not inferred: a Go getter whose goroutine has ended, or the
+// innermost chain / join of a connection whose labelled goroutine has ended.  Called without r.mu.
+func (r *run) observeInnerDelivery() {
+	for try := 0; try < 400; try++ {
+		r.mu.Lock()
+		for _, it := range r.items {
+			if it.kind == kGo && it.inner && r.created[it.id] && r.finished[it.id] && !r.recvd[it.id] {
+				goid := r.ctl[it.id].goid
+				r.mu.Unlock()
+				gone := r.goroutineGone(goid)
+				r.mu.Lock()
+				if gone {
+					if !r.arrived[it.id] {
+						r.arrived[it.id] = true
+						r.logf("arrive", it.id)
+					}
+					r.recvd[it.id] = true
+					r.logf("recv", it.id)
+					r.mu.Unlock()
+					return
+				}
+			}
+		}
+		for _, spec := range r.conns {
+			pending := 0
+			first := -1
+			for _, c := range spec.chains {
+				if r.created[c] && !r.recvd[c] {
+					if first < 0 {
+						first = c
+					}
+					pending++
+				}
+			}
+			// only inner chains end a round this way; the outermost one is visible to the executor
+			if pending < 2 || first < 0 || !r.items[first].inner {
+				continue
+			}
+			// getter goroutines of this connection that have not handed over yet exist as well
+			for _, g := range spec.getters {
+				if g.item >= 0 && r.items[g.item].kind == kGo && r.created[g.item] && !r.recvd[g.item] {
+					pending++
+				}
+			}
+			r.mu.Unlock()
+			alive := chainGoroutines(connLabel(spec))
+			r.mu.Lock()
+			if alive < pending {
+				// the missing goroutine may be a getter's that ended between the two looks
+				getterGone := false
+				for _, g := range spec.getters {
+					if g.item >= 0 && r.items[g.item].kind == kGo && r.created[g.item] && r.finished[g.item] && !r.recvd[g.item] {
+						goid := r.ctl[g.item].goid
+						r.mu.Unlock()
+						gone := r.goroutineGone(goid)
+						r.mu.Lock()
+						if gone {
+							getterGone = true
+						}
+					}
+				}
+				if getterGone {
+					continue // the next try attributes it to the getter
+				}
+				r.ensureChainFinished(first)
+				r.recvd[first] = true
+				r.logf("recv", first)
+				r.mu.Unlock()
+				return
+			}
+		}
+		r.mu.Unlock()
+		runtime.Gosched()
+	}
+}
+
 // afterIdle: on the executor thread, right after the real idle handler returned.
 func (r *run) afterIdle() {
 	r.mu.Lock()
+	if !r.roundFlush {
+		visible := false
+		for _, it := range r.items {
+			if it.kind == kSync || it.inner || !r.created[it.id] || r.delivered[it.id] {
+				continue
+			}
+			if p := r.prom[it.id]; p != nil && len(p) == 1 {
+				visible = true
+			}
+		}
+		if !visible {
+			r.mu.Unlock()
+			r.observeInnerDelivery()
+			r.mu.Lock()
+		}
+	}
 	defer r.mu.Unlock()
 	if r.roundFlush {
 		r.logf("flush-done", 0)
